@@ -82,6 +82,10 @@ func call(d time.Duration, f func() error) (err error, timedOut bool) {
 	}
 }
 
+// closeBounded closes a DB on a path where a violation (or the end of a scenario) is already decided: the
+// result of Close does not matter there and a Close that blocks must not keep the harness from reporting.
+func closeBounded(db *leveldb.DB) { call(3*time.Second, func() error { return db.Close() }) }
+
 // checkContents reads every marker and key and compares with the in-order application of the batches whose
 // marker is present; all acknowledged batches must be present. readErrOK: read errors are tolerated (faults active).
 func checkContents(db *leveldb.DB, bs []*bstat, phase string, readErrOK bool) string {
@@ -239,7 +243,7 @@ func runScenario(sc *Scenario) (out outcome) {
 			// after healing, everything that was reported successful must be readable and consistent
 			if m := checkContents(db, bs, "after healing", false); m != "" {
 				out.msg = m
-				db.Close()
+				closeBounded(db)
 				return
 			}
 		}
@@ -319,7 +323,7 @@ func runScenario(sc *Scenario) (out outcome) {
 		if si >= sc.ArmStep && !healed && si%5 == 0 {
 			if m := checkContents(db, bs, "while faults are active", true); m != "" {
 				out.msg = m
-				db.Close()
+				closeBounded(db)
 				return
 			}
 		}
@@ -330,13 +334,13 @@ func runScenario(sc *Scenario) (out outcome) {
 	}
 	if m := checkContents(db, bs, "at the end (faults removed)", false); m != "" {
 		out.msg = m
-		db.Close()
+		closeBounded(db)
 		return
 	}
 	if sc.ReadProbe {
 		if m := readFaultProbe(db, stor, bs, vlib.NewRNG(sc.W.Seed)); m != "" {
 			out.msg = m
-			db.Close()
+			closeBounded(db)
 			return
 		}
 	}
@@ -356,7 +360,7 @@ func runScenario(sc *Scenario) (out outcome) {
 		out.msg = "reopen after the faults were removed fails: " + err.Error()
 		return
 	}
-	defer db2.Close()
+	defer closeBounded(db2)
 	if m := checkContents(db2, bs, "after close and reopen", false); m != "" {
 		out.msg = m
 		return
